@@ -359,6 +359,7 @@ type verifJHistCfg struct {
 	bigChunks      bool
 	smallMemtable  bool // allow histories whose memtable is tiny, so that Put flushes chunks to the journal before any commit
 	firstPuts      int  // up to this many extra leaf puts before the first commit
+	ackImages      bool // at every ack copy the directory as it is on disk and require that the copy reopens to the acknowledged root
 }
 
 // verifJBufSizes are the journal writer buffer sizes a history may run with. The production
@@ -381,6 +382,9 @@ type verifJHist struct {
 	maxNovel int
 	bufSz    uint32
 	memSz    uint64 // 0 = default memtable size
+	cfg      verifJHistCfg
+	nAckImg  int
+	classes  map[string]int
 	chunks   map[hash.Hash]*verifJChunk
 	order    []hash.Hash // first-put order
 	pending  []hash.Hash
@@ -582,6 +586,89 @@ func (h *verifJHist) opCommit(rt *rapid.T) {
 	s := h.snaps[len(h.snaps)-1]
 	h.acks = append(h.acks, verifJAck{size: s.jsize, root: addr, snap: len(h.snaps) - 1})
 	h.opf("commit#%d %s (%d puts, %d refs) size=%d", len(h.acks), verifJShort(addr), npend, len(refs), s.jsize)
+	h.checkAck(rt, fmt.Sprintf("Commit #%d", len(h.acks)), addr)
+}
+
+// checkAck runs right after Commit returned true for |root|: what is on disk at this moment is
+// what a crash right now leaves behind. The journal file must end (own walker) with a complete
+// root record of the acknowledged root, and (cfg.ackImages) a copy of the on-disk directory must
+// reopen to that root with the root chunk readable.
+func (h *verifJHist) checkAck(rt *rapid.T, what string, root hash.Hash) {
+	j := verifJReadFile(verifJJournalPath(h.dir))
+	recs, end := verifJWalk(j)
+	if len(recs) == 0 || end != int64(len(j)) || recs[len(recs)-1].kind != 1 || recs[len(recs)-1].addr != root {
+		last := "none"
+		if len(recs) > 0 {
+			last = fmt.Sprintf("kind %d addr %s ending at %d", recs[len(recs)-1].kind, verifJShort(recs[len(recs)-1].addr), recs[len(recs)-1].off+recs[len(recs)-1].n)
+		}
+		rt.Fatalf("%s acknowledged root %s, but the journal file on disk at that moment (%d bytes) does not end with a root record of it (last complete record: %s) — a crash right after the acknowledgement loses it\nhistory: %s", what, root, len(j), last, h.opsString())
+	}
+	if !h.cfg.ackImages {
+		return
+	}
+	img := h.dir + "-ackimg"
+	defer os.RemoveAll(img)
+	if err := verifJWriteImage(img, j, verifJReadFile(verifJManifestPath(h.dir)), verifJReadFile(verifJIndexPath(h.dir))); err != nil {
+		rt.Fatalf("ack image: %v", err)
+	}
+	st, err := verifJOpen(img, JournalingStoreOptions{}, nil)
+	if err != nil {
+		rt.Fatalf("%s: copy of the on-disk directory taken at the acknowledgement does not open: %v", what, err)
+	}
+	got, err := verifJLoad(st)
+	if err != nil || got != root {
+		_ = st.Close()
+		rt.Fatalf("%s acknowledged root %s; a copy of the on-disk directory taken at that moment reopens to root %s (err %v)\nhistory: %s", what, root, got, err, h.opsString())
+	}
+	if c, gerr := st.Get(verifJCtx, root); gerr != nil || c.IsEmpty() {
+		_ = st.Close()
+		rt.Fatalf("%s acknowledged root %s; in a copy of the on-disk directory taken at that moment the root chunk is not readable (err %v)", what, root, gerr)
+	}
+	if err = st.Close(); err != nil {
+		rt.Fatalf("ack image: Close: %v", err)
+	}
+	h.nAckImg++
+}
+
+// opRevertCommit commits an *earlier* acknowledged root again (A -> B -> A: deleting a branch
+// just created, resetting a head). With nothing pending, the commit writes a root record and no
+// chunk record at all.
+func (h *verifJHist) opRevertCommit(rt *rapid.T) {
+	var cands []hash.Hash
+	seen := map[hash.Hash]bool{h.root: true}
+	for _, a := range h.acks {
+		if !seen[a.root] {
+			seen[a.root] = true
+			cands = append(cands, a.root)
+		}
+	}
+	if len(cands) == 0 {
+		return
+	}
+	// bias towards the most recent other root
+	target := cands[len(cands)-1-rapid.IntRange(0, min(len(cands)-1, 3)).Draw(rt, "revert.to")]
+	ok, err := h.st.Commit(verifJCtx, target, h.root)
+	if err != nil || !ok {
+		rt.Fatalf("history: Commit(%s (an earlier root), last %s) = %v, %v", verifJShort(target), verifJShort(h.root), ok, err)
+	}
+	npend := len(h.pending)
+	for _, a := range h.pending {
+		if h.chunks[a].commit < 0 {
+			h.chunks[a].commit = len(h.acks)
+		}
+	}
+	h.pending = nil
+	h.root = target
+	h.snap(rt, "revert-commit")
+	s := h.snaps[len(h.snaps)-1]
+	h.acks = append(h.acks, verifJAck{size: s.jsize, root: target, snap: len(h.snaps) - 1})
+	h.opf("revertcommit#%d ->%s (%d pending puts) size=%d", len(h.acks), verifJShort(target), npend, s.jsize)
+	if npend == 0 {
+		h.classes["commit_without_chunk_record"]++
+	} else {
+		h.classes["revert_commit_with_puts"]++
+	}
+	h.checkAck(rt, fmt.Sprintf("Commit #%d (back to the earlier root, %d pending puts)", len(h.acks), npend), target)
 }
 
 func (h *verifJHist) opNoopCommit(rt *rapid.T) {
@@ -596,6 +683,7 @@ func (h *verifJHist) opNoopCommit(rt *rapid.T) {
 	s := h.snaps[len(h.snaps)-1]
 	h.acks = append(h.acks, verifJAck{size: s.jsize, root: h.root, snap: len(h.snaps) - 1})
 	h.opf("noopcommit size=%d", s.jsize)
+	h.checkAck(rt, fmt.Sprintf("no-op Commit #%d", len(h.acks)), h.root)
 }
 
 func (h *verifJHist) opStaleCommit(rt *rapid.T) {
@@ -633,7 +721,7 @@ func (h *verifJHist) opReopen(rt *rapid.T) {
 // verifJBuildHistory draws and runs a write history in dir (which must be empty) and returns
 // it closed, with the final journal bytes, index bytes and manifest bytes.
 func verifJBuildHistory(rt *rapid.T, dir string, cfg verifJHistCfg) *verifJHist {
-	h := &verifJHist{dir: dir, chunks: map[hash.Hash]*verifJChunk{}}
+	h := &verifJHist{dir: dir, chunks: map[hash.Hash]*verifJChunk{}, cfg: cfg, classes: map[string]int{}}
 	h.rng = &verifJRng{s: rapid.Uint64().Draw(rt, "bytesSeed")}
 	h.maxNovel = rapid.SampledFrom(cfg.maxNovels).Draw(rt, "maxNovel")
 	h.bufSz = journalWriterBuffSize
@@ -671,15 +759,17 @@ func verifJBuildHistory(rt *rapid.T, dir string, cfg verifJHistCfg) *verifJHist 
 	n := rapid.IntRange(cfg.minOps, cfg.maxOps).Draw(rt, "nops")
 	for i := 0; i < n; i++ {
 		switch k := rapid.IntRange(0, 99).Draw(rt, "op"); {
-		case k < 50:
+		case k < 46:
 			h.opPutLeaf(rt, cfg.bigChunks)
-		case k < 78:
+		case k < 70:
 			h.opCommit(rt)
-		case k < 86:
+		case k < 80:
+			h.opRevertCommit(rt)
+		case k < 87:
 			h.opReopen(rt)
-		case k < 91:
+		case k < 92:
 			h.opRePut(rt)
-		case k < 95:
+		case k < 96:
 			h.opNoopCommit(rt)
 		default:
 			h.opStaleCommit(rt)
